@@ -25,9 +25,9 @@ def db_of(A):
 def build(c, n_default):
     k = c[0]
     if k == "U":
-        return deps.buint(c[1], c[2] if len(c) > 2 else n_default)
+        return deps.buint(c[1], c[2] if len(c) > 2 and c[2] is not None else n_default, c[3] if len(c) > 3 else None)
     if k == "I":
-        return deps.bint(c[1], c[2] if len(c) > 2 else n_default)
+        return deps.bint(c[1], c[2] if len(c) > 2 and c[2] is not None else n_default, c[3] if len(c) > 3 else None)
     if k == "c":
         return deps.conc(c[1], c[2])
     if k == "p":
@@ -35,7 +35,7 @@ def build(c, n_default):
     if k == "bytes":
         return ("arr", tuple(deps.leaf("%s[%d]" % (c[1], j), "u8") for j in range(c[2])))
     if k == "digs":
-        return deps.digits(c[1], c[2])
+        return deps.digits(c[1], c[2], c[3] if len(c) > 3 else None)
     if k == "rng":
         return deps.TOP(frozenset(["rng"]))
     raise ValueError(c)
@@ -64,7 +64,8 @@ def mk_args(F, root, contents, n):
 
 
 def val_of(A, label, n=None):
-    return ("I" if is_signed(A) else "U", label) + ((n,) if n is not None else ())
+    """operand of type A (its digits carry byte leaves `label[j]#b` next to the digit leaf `label[j]`)"""
+    return ("I" if is_signed(A) else "U", label, n, DIGIT[A])
 
 
 def dig_path(A):
@@ -913,6 +914,307 @@ def c20(K, Ns):
     return out
 
 
+
+# ================================================================================================ byte-level rows
+# The same rule at byte granularity: every operand digit carries one leaf per byte, the interpreter moves them through
+# shifts, masks, casts, byte swaps and carries (analysis/deps.py, `lanes`), and a row lists for each output BYTE the
+# operand bytes it certainly varies with.  g = significance index of a byte in the value (0 = least significant).
+def blab(label, w, g):
+    return "%s[%d]#%d" % (label, g // w, g % w)
+
+
+def out_byte_path(A, g, prefix=()):
+    w = db_of(A) // 8
+    return prefix + dig_path(A) + (g // w, ("lane", g % w))
+
+
+def brow(K, prop, fid, name, shape, contents, bytemap, OUT, n_out, n, prefix=(), by_ref_out=False, extra=None):
+    """bytemap(g) -> set of labels output byte g of the bnum result of type OUT must be able to depend on"""
+    req = []
+    for g in range(n_out * db_of(OUT) // 8):
+        need = bytemap(g)
+        if need:
+            req.append((out_byte_path(OUT, g, prefix), need, "byte %d of the result" % g))
+    if extra:
+        req += extra
+    return row(K, prop, fid, name + "_bytes", shape, contents, req, n, by_ref_out=by_ref_out)
+
+
+def shift_map(kind, s, total_bytes, w_src, signed, label="a"):
+    """output byte g of x << s / x >> s / rotations: the source bytes holding its bits"""
+    def f(g):
+        lo, hi = 8 * g, 8 * g + 7
+        need = set()
+        tb = 8 * total_bytes
+        if kind == "shl":
+            for bit in (lo - s, hi - s):
+                if 0 <= bit < tb:
+                    need.add(blab(label, w_src, bit // 8))
+        elif kind == "shr":
+            for bit in (lo + s, hi + s):
+                if bit < tb:
+                    need.add(blab(label, w_src, bit // 8))
+                elif signed:
+                    need.add(blab(label, w_src, total_bytes - 1))
+        elif kind == "rotl":
+            for bit in (lo - s, hi - s):
+                need.add(blab(label, w_src, (bit % tb) // 8))
+        elif kind == "rotr":
+            for bit in (lo + s, hi + s):
+                need.add(blab(label, w_src, (bit % tb) // 8))
+        return need
+    return f
+
+
+def byte_amounts(n, db):
+    bits = n * db
+    c = [0, 8, 5, db, db + 8, db - 8, bits - 8, bits - 3, 16, 24]
+    return sorted({x for x in c if 0 <= x < bits})
+
+
+def b_c05(K, Ns):
+    out = []
+    for A in ADTS:
+        sg = is_signed(A)
+        db = db_of(A)
+        w = db // 8
+        for n in Ns:
+            sh = {"N": n}
+            tb = n * w
+            for s_ in byte_amounts(n, db):
+                for m, form, kind in (("checked_shl", "opt", "shl"), ("wrapping_shl", "val", "shl"), ("overflowing_shl", "pair", "shl"), ("unbounded_shl", "val", "shl"),
+                                      ("checked_shr", "opt", "shr"), ("wrapping_shr", "val", "shr"), ("overflowing_shr", "pair", "shr"), ("unbounded_shr", "val", "shr"),
+                                      ("rotate_left", "val", "rotl"), ("rotate_right", "val", "rotr")):
+                    fid = inh(A, m)
+                    if not exists(K, fid):
+                        continue
+                    vp, _ = ret_forms(A, form)
+                    out.append(brow(K, "C05", fid, "N%d_s%d" % (n, s_), sh, [val_of(A, "a"), ("c", s_, "u32")],
+                                    shift_map(kind, s_, tb, w, sg), A, n, n, prefix=vp))
+    return out
+
+
+def b_c06(K, Ns):
+    out = []
+    for A in ADTS:
+        w = db_of(A) // 8
+        for n in Ns:
+            sh = {"N": n}
+            tb = n * w
+            for m in ("bitand", "bitor", "bitxor"):
+                fid = inh(A, m)
+                if exists(K, fid):
+                    out.append(brow(K, "C06", fid, "N%d" % n, sh, [val_of(A, "a"), val_of(A, "b")], lambda g: {blab("a", w, g), blab("b", w, g)}, A, n, n))
+            fid = inh(A, "not")
+            if exists(K, fid):
+                out.append(brow(K, "C06", fid, "N%d" % n, sh, [val_of(A, "a")], lambda g: {blab("a", w, g)}, A, n, n))
+            for m in ("swap_bytes", "reverse_bits"):
+                fid = inh(A, m)
+                if exists(K, fid):
+                    out.append(brow(K, "C06", fid, "N%d" % n, sh, [val_of(A, "a")], lambda g: {blab("a", w, tb - 1 - g)}, A, n, n))
+    return out
+
+
+def b_c01(K, Ns):
+    out = []
+    for A in ADTS:
+        w = db_of(A) // 8
+        for n in Ns:
+            sh = {"N": n}
+            for m, form in (("overflowing_add", "pair"), ("overflowing_sub", "pair"), ("wrapping_add", "val"), ("wrapping_sub", "val"), ("checked_add", "opt"), ("checked_sub", "opt")):
+                fid = inh(A, m)
+                if exists(K, fid):
+                    vp, _ = ret_forms(A, form)
+                    out.append(brow(K, "C01", fid, "N%d" % n, sh, [val_of(A, "a"), val_of(A, "b")],
+                                    lambda g: {blab("a", w, j) for j in range(g + 1)} | {blab("b", w, j) for j in range(g + 1)}, A, n, n, prefix=vp))
+            for m, form in (("overflowing_neg", "pair"), ("wrapping_neg", "val")):
+                fid = inh(A, m)
+                if exists(K, fid):
+                    vp, _ = ret_forms(A, form)
+                    out.append(brow(K, "C01", fid, "N%d" % n, sh, [val_of(A, "a")], lambda g: {blab("a", w, j) for j in range(g + 1)}, A, n, n, prefix=vp))
+    return out
+
+
+def b_c02(K, Ns):
+    out = []
+    for A in ADTS:
+        w = db_of(A) // 8
+        for n in Ns:
+            sh = {"N": n}
+            for m, form in (("overflowing_mul", "pair"), ("wrapping_mul", "val"), ("checked_mul", "opt")):
+                fid = inh(A, m)
+                if exists(K, fid):
+                    vp, _ = ret_forms(A, form)
+                    out.append(brow(K, "C02", fid, "N%d" % n, sh, [val_of(A, "a"), val_of(A, "b")],
+                                    lambda g: {blab("a", w, j) for j in range(g + 1)} | {blab("b", w, j) for j in range(g + 1)}, A, n, n, prefix=vp))
+    return out
+
+
+def b_c09(K, Ns, pairs):
+    out = []
+    for A in ADTS:
+        sg = is_signed(A)
+        w = db_of(A) // 8
+        for n in Ns:
+            sh = {"N": n}
+            tb = n * w
+            T = TWIN[A]
+            for m in (("cast_unsigned", "to_bits") if sg else ("cast_signed",)):
+                fid = inh(A, m)
+                if exists(K, fid):
+                    out.append(brow(K, "C09", fid, "N%d" % n, sh, [val_of(A, "a")], lambda g: {blab("a", w, g)}, T, n, n))
+            if sg:
+                fid = inh(A, "from_bits")
+                if exists(K, fid):
+                    out.append(brow(K, "C09", fid, "N%d" % n, sh, [val_of(T, "a")], lambda g: {blab("a", w, g)}, A, n, n))
+            for p in PRIM_INTS:
+                pw = PBITS[p] // 8
+                fid = "<%s<N> as cast::CastFrom<%s>>::cast_from" % (A, p)
+                if exists(K, fid) and pw > 1:
+                    def pm(g, pw=pw, p=p):
+                        if g < pw:
+                            return {"p#%d" % g}
+                        return {"p#%d" % (pw - 1)} if p.startswith("i") else set()
+                    out.append(brow(K, "C09", fid, "N%d" % n, sh, [("p", "p", p)], pm, A, n, n))
+                fid = "<%s as cast::CastFrom<%s<N>>>::cast_from" % (p, A)
+                if exists(K, fid) and pw > 1:
+                    req = [((("lane", g),), {blab("a", w, g)}, "byte %d of the result" % g) for g in range(min(pw, tb))]
+                    if sg and tb < pw:
+                        req += [((("lane", g),), {blab("a", w, tb - 1)}, "byte %d of the result (sign extension)" % g) for g in range(tb, pw)]
+                    out.append(row(K, "C09", fid, "N%d_bytes" % n, sh, [val_of(A, "a")], req, n))
+    for T in ADTS:
+        for Sx in ADTS:
+            fid = "<%s<N> as cast::CastFrom<%s<M>>>::cast_from" % (T, Sx)
+            if not exists(K, fid):
+                continue
+            wi = db_of(Sx) // 8
+            for (n, m) in pairs:
+                sb = m * wi
+
+                def cm(g, sb=sb, wi=wi, Sx=Sx):
+                    if g < sb:
+                        return {blab("a", wi, g)}
+                    return {blab("a", wi, sb - 1)} if is_signed(Sx) else set()
+                out.append(brow(K, "C09", fid, "N%d_M%d" % (n, m), {"N": n, "M": m}, [val_of(Sx, "a", m)], cm, T, n, n))
+    return out
+
+
+def b_c15(K, Ns):
+    out = []
+    for A in ADTS:
+        sg = is_signed(A)
+        w = db_of(A) // 8
+        for n in Ns:
+            sh = {"N": n}
+            tb = n * w
+            for L in sorted({1, w, w + 1, tb - 1, tb, tb + 1, tb + w + 1} - {0, -1}):
+                if L <= 0:
+                    continue
+                for m, be in (("from_be_slice", True), ("from_le_slice", False)):
+                    fid = inh(A, m)
+                    if not exists(K, fid):
+                        continue
+
+                    def sm(g, L=L, be=be):
+                        if g < L:
+                            return {"s[%d]" % ((L - 1 - g) if be else g)}
+                        return {"s[%d]" % (0 if be else L - 1)} if sg else set()
+                    out.append(brow(K, "C15", fid, "N%d_L%d" % (n, L), sh, [("bytes", "s", L)], sm, A, n, n, prefix=(("some",), 0)))
+            for m, rev in (("to_be", True), ("from_be", True), ("to_le", False), ("from_le", False)):
+                fid = inh(A, m)
+                if exists(K, fid):
+                    out.append(brow(K, "C15", fid, "N%d" % n, sh, [val_of(A, "a")], (lambda g, rev=rev: {blab("a", w, tb - 1 - g if rev else g)}), A, n, n))
+    return out
+
+
+def b_c15_nightly(K, Ns):
+    out = []
+    for A in ADTS:
+        w = db_of(A) // 8
+        for n in Ns:
+            sh = {"N": n}
+            nb = n * w
+            for m, be in (("to_be_bytes", True), ("to_le_bytes", False), ("to_ne_bytes", False)):
+                fid = inh(A, m)
+                if exists(K, fid):
+                    req = [((b,), {blab("a", w, (nb - 1 - b) if be else b)}, "byte %d of the output" % b) for b in range(nb)]
+                    out.append(row(K, "C15", fid, "N%d_bytes" % n, sh, [val_of(A, "a")], req, n))
+            for m, be in (("from_be_bytes", True), ("from_le_bytes", False), ("from_ne_bytes", False)):
+                fid = inh(A, m)
+                if exists(K, fid):
+                    out.append(brow(K, "C15", fid, "N%d" % n, sh, [("bytes", "s", nb)], (lambda g, be=be: {"s[%d]" % ((nb - 1 - g) if be else g)}), A, n, n))
+    return out
+
+
+def b_c10(K, Ns):
+    out = []
+    for A in ADTS:
+        w = db_of(A) // 8
+        for n in Ns:
+            sh = {"N": n}
+            tb = n * w
+            for L in sorted({1, tb - 1, tb}):
+                if L <= 0:
+                    continue
+                for m, be in (("from_radix_be", True), ("from_radix_le", False)):
+                    fid = inh(A, m)
+                    if exists(K, fid):
+                        out.append(brow(K, "C10", fid, "N%d_r256_L%d" % (n, L), sh, [("bytes", "s", L), ("c", 256, "u32")],
+                                        (lambda g, L=L, be=be: {"s[%d]" % ((L - 1 - g) if be else g)} if g < L else set()), A, n, n, prefix=(("some",), 0)))
+    return out
+
+
+def b_c13(K, Ns):
+    out = []
+    for A in ADTS:
+        w = db_of(A) // 8
+        for n in Ns:
+            sh = {"N": n}
+            fid = inh(A, "from_digits")
+            if exists(K, fid):
+                out.append(brow(K, "C13", fid, "N%d" % n, sh, [("digs", "a", n, DIGIT[A])], lambda g: {blab("a", w, g)}, A, n, n))
+            if w > 1:
+                fid = inh(A, "from_digit")
+                if exists(K, fid):
+                    out.append(brow(K, "C13", fid, "N%d" % n, sh, [("p", "p", DIGIT[A])], lambda g: {"p#%d" % g} if g < w else set(), A, n, n))
+    return out
+
+
+def b_c17(K, Ns):
+    out = []
+    for A in ADTS:
+        w = db_of(A) // 8
+        for n in Ns:
+            sh = {"N": n}
+            for opn, m, kind in (("Add", "add", "chain"), ("Sub", "sub", "chain"), ("Mul", "mul", "chain"), ("BitAnd", "bitand", "lane"), ("BitOr", "bitor", "lane"), ("BitXor", "bitxor", "lane")):
+                def bm(g, kind=kind):
+                    js = range(g + 1) if kind == "chain" else [g]
+                    return {blab("a", w, j) for j in js} | {blab("b", w, j) for j in js}
+                for selfref, rhsref in ((False, False), (True, True)):
+                    fid = "<%s as core::ops::%s<%s>>::%s" % (("&" if selfref else "") + A + "<N>", opn, ("&" if rhsref else "") + A + "<N>", m)
+                    if exists(K, fid):
+                        out.append(brow(K, "C17", fid, "N%d" % n, sh, [val_of(A, "a"), val_of(A, "b")], bm, A, n, n))
+                fid = "<%s<N> as core::ops::%sAssign<%s<N>>>::%s_assign" % (A, opn, A, m)
+                if exists(K, fid):
+                    out.append(brow(K, "C17", fid, "N%d" % n, sh, [val_of(A, "a"), val_of(A, "b")], bm, A, n, n, by_ref_out=True))
+    return out
+
+
+def b_c18(K, Ns):
+    out = []
+    NT = "num_traits::"
+    for A in ADTS:
+        w = db_of(A) // 8
+        for n in Ns:
+            sh = {"N": n}
+            tb = n * w
+            for m, rev in (("swap_bytes", True), ("reverse_bits", True), ("to_be", True), ("from_be", True), ("to_le", False), ("from_le", False)):
+                fid = tr(A, NT + "PrimInt", [], m)
+                if exists(K, fid):
+                    out.append(brow(K, "C18", fid, "N%d" % n, sh, [val_of(A, "a")], (lambda g, rev=rev: {blab("a", w, tb - 1 - g if rev else g)}), A, n, n))
+    return out
+
+
 # ------------------------------------------------------------------------------------------------ dispatch
 def pairs_for(tier):
     if tier == "quick":
@@ -924,9 +1226,14 @@ def obligations(ctx, prop, tier):
     Ns = QUICK_N if tier == "quick" else THOROUGH_N
     configs = ["Kd", "Kr"]
     table = {"C01": c01, "C02": c02, "C03": c03, "C05": c05, "C06": c06, "C07": c07, "C08": c08, "C10": c10, "C14": c14, "C15": c15, "C17": c17, "C18": c18, "C19": c19, "C20": c20}
+    btable = {"C01": b_c01, "C02": b_c02, "C05": b_c05, "C06": b_c06, "C10": b_c10, "C13": b_c13, "C15": b_c15, "C17": b_c17, "C18": b_c18}
     out = []
     for cfg in configs:
         K = ctx.k(cfg)
+        if prop in btable:
+            out += btable[prop](K, Ns)
+        if prop == "C09":
+            out += b_c09(K, Ns, pairs_for(tier))
         if prop in table:
             out += table[prop](K, Ns)
         elif prop == "C09":
@@ -941,7 +1248,13 @@ def obligations(ctx, prop, tier):
             Kn = None           # the optional nightly configuration does not build: its rows do not exist (as for the F rows)
         if Kn is not None:
             out += c15_nightly(Kn, Ns)
+            out += b_c15_nightly(Kn, Ns)
         else:
+            for A in ADTS:
+                for m in ("to_be_bytes", "to_le_bytes", "to_ne_bytes", "from_be_bytes", "from_le_bytes", "from_ne_bytes"):
+                    for n in Ns:
+                        out.append(core.Ob("C15:D:Kdn:%s:N%d_bytes" % (inh(A, m), n), "C15", "D", "Kdn", inh(A, m), core.UNDECIDED,
+                                           "configuration Kdn (feature `nightly`) does not build on this tree: not decided"))
             # keep the enumerated count independent of whether the optional configuration builds
             for A in ADTS:
                 for m in ("to_be_bytes", "to_le_bytes", "to_ne_bytes", "from_be_bytes", "from_le_bytes", "from_ne_bytes"):
